@@ -25,7 +25,8 @@ CAUSES = {
     'attr-lost': ['comment-in-info', 'trailing-comment'],
     'param-lost': ['comment-in-info', 'trailing-comment'],
     'instance-name': ['comment-in-info', 'trailing-comment'],
-    'nets': ['conn-early', 'conn-twice', 'latch3', 'trailing-comment'],
+    'nets': ['conn-early', 'conn-twice', 'conn-capture', 'latch3', 'trailing-comment'],
+    'rt-nets': ['port-bit-unattached'],
     'instance-definition': ['trailing-comment'],
     'instance-count': ['trailing-comment'],
     'unconn': ['trailing-comment'],
@@ -36,6 +37,11 @@ CAUSES = {
     'rt-top': ['top-is-primitive'],
     'rt-model-lost': ['top-is-primitive'],
 }
+# design-oracle failures that contradict a clause of BlifSpec.denote (theorem C18_sound_full_holds):
+# they must not occur on a document the model classifies as `supported`
+DENOTE_KINDS = {'top-missing', 'top-library', 'top-ports', 'primitive-missing', 'primitive-library', 'primitive-not-leaf',
+                'primitive-ports', 'instance-count', 'instance-definition', 'instance-type', 'cname-lost', 'attr-lost',
+                'param-lost', 'covers', 'nets'}
 PRIORITY = ['reader-raised', 'top-election', 'top-library', 'top-missing', 'top-ports', 'primitive-missing', 'primitive-library',
             'primitive-not-leaf', 'primitive-ports', 'instance-count', 'instance-definition', 'instance-type', 'cname-lost',
             'attr-lost', 'param-lost', 'instance-name', 'covers', 'unconn', 'data-keys', 'nets']
@@ -100,7 +106,7 @@ class Outcome:
         self.stats = {}
 
 
-NO_MODEL = ({'error': 'outside'}, None, None)
+NO_MODEL = ({'error': 'outside'}, None, None, {'supported': None, 'roundtrippable': None, 'rt_check': None, 'written_supported': None})
 
 
 def run_text(text, tmp, model_result=None, expectation=None, pure_check=False):
@@ -114,7 +120,8 @@ def run_text(text, tmp, model_result=None, expectation=None, pure_check=False):
         oc.disagreements.append(('tokenise', ta))
     if model_result is None:
         model_result = W.run_model([doc])[0]
-    e, w, r = model_result
+    e, w, r, preds = model_result
+    oc.preds = preds
     e = W.normalise_model_dump(e)
     nl, exc = W.parse_text(text, tmp)
     dump = W.dump_netlist(nl) if nl is not None else {'error': exc}
@@ -198,6 +205,8 @@ def signatures(oc):
         feats.add('conn-on-port-net')
     if K.top_is_primitive(oc.dump):
         feats.add('top-is-primitive')
+    if K.port_bit_unattached(oc.dump):
+        feats.add('port-bit-unattached')
     if oc.written is not None and K.default_name_clash(oc.written):
         feats.add('default-name-clash')
     sigs = []
@@ -278,7 +287,8 @@ def run(prop, tier, seed, replay):
             known_by_sig[s] = k
     st = {'cases': 0, 'compared': 0, 'outside': 0, 'disagreements': 0, 'oracle_failures': 0, 'known_hits': collections.Counter(),
           'hist': collections.Counter(), 'sizes': collections.Counter(), 'outcomes': collections.Counter(),
-          'distinct': set(), 'samples': [], 'known_printed': set(), 'reported': 0, 'features': collections.Counter()}
+          'distinct': set(), 'samples': [], 'known_printed': set(), 'reported': 0, 'features': collections.Counter(),
+          'pred': collections.Counter(), 'tie_reported': 0}
 
     def account(source, oc, text):
         st['cases'] += 1
@@ -295,8 +305,58 @@ def run(prop, tier, seed, replay):
         if len(nonblank) > 3:
             st['distinct'].add(common.sha(text))
 
+    def tie(source, text, oc, design, quirks):
+        """the predicates of BlifSpec, evaluated by the extracted model, against the oracles on the implementation:
+        a design failure on a `supported` document, or a round-trip failure on a `roundtrippable` netlist, contradicts
+        C18_sound_full_holds / the round-trip claim (given that model and implementation agree on the parsed netlist):
+        the predicate is wrong or the code is.  Never matched against known findings."""
+        preds = getattr(oc, 'preds', None) or {}
+        if oc.outside or any(s0 == 'read' for s0, _ in oc.disagreements):
+            return
+        bad = []
+        if preds.get('supported'):
+            st['pred']['supported'] += 1
+            fs = [f for f in oc.failures if f[0] == 'design' and f[1] in DENOTE_KINDS]
+            if fs:
+                bad.append(('supported-but-design-fails', fs[:3]))
+        elif preds.get('supported') is False:
+            st['pred']['not-supported'] += 1
+        rt = preds.get('roundtrippable')
+        rtf = [f for f in getattr(oc, 'all_failures', oc.failures) if f[0] == 'roundtrip' and f[1] != 'write-not-pure']
+        if rt:
+            st['pred']['roundtrippable'] += 1
+            if preds.get('written_supported'):
+                # then C18_reread_faithful applies: the re-read netlist is what the written file says
+                st['pred']['roundtrippable-and-written-file-supported'] += 1
+            if not preds.get('rt_check'):
+                bad.append(('roundtrippable-but-model-roundtrip-fails', [('model', 'rt_check', 'equiv_b n (elab (emit n)) is false')]))
+            if rtf:
+                bad.append(('roundtrippable-but-roundtrip-fails', rtf[:3]))
+            if oc.stats.get('compose_outcome') == 'ok' and not rtf:
+                st['pred']['roundtrippable-and-impl-roundtrips'] += 1
+        elif rt is False:
+            st['pred']['not-roundtrippable'] += 1
+            if preds.get('rt_check') and oc.stats.get('compose_outcome') == 'ok' and not rtf:
+                st['pred']['not-roundtrippable-but-roundtrips'] += 1
+        if preds.get('rt_check') is not None and oc.stats.get('compose_outcome') == 'ok' and oc.stats.get('reread_outcome') is not None:
+            # the verified checker's verdict against the oracle on the implementation (informative: the oracle also
+            # compares port widths and is evaluated on the implementation's own written file)
+            st['pred']['rt_check=%s/impl-roundtrip=%s' % (preds['rt_check'], not rtf)] += 1
+        for kind, fs in bad:
+            st['pred'][kind] += 1
+            if st['tie_reported'] < 6:
+                st['tie_reported'] += 1
+                rep.violation('%s-%s-%s' % (kind, source.replace('/', '_'), common.sha(text)),
+                              {'kind': kind, 'engine': 'eblif', 'source': source, 'predicates': preds,
+                               'oracle': [list(f) for f in fs], 'text': text,
+                               'design': G.to_json(design) if design is not None else None, 'quirks': list(quirks),
+                               'what': 'BlifSpec.supported / roundtrippable (theorems of Props/C18.v) classify this document as inside '
+                                       'the fragment, yet the oracle on the implementation fails: the predicate is too wide or the code is wrong',
+                               'replay': 'checks/run C18 --replay <this file>'})
+
     def handle(source, text, oc, tmp, design=None, quirks=(), style=None):
         """disagreements and oracle failures of one case -> protocol lines"""
+        tie(source, text, oc, design, quirks)
         sigs, feats = signatures(oc)
         for f in feats:
             st['features'][f] += 1
@@ -389,7 +449,7 @@ def run(prop, tier, seed, replay):
             st['sizes']['bundled:%d-lines' % (len(oc.doc) // 100 * 100)] += 1
             handle('bundled/' + fn, text, oc, tmp)
         # 3. generated designs, rendered by the independent writer
-        n_plain, n_quirk, n_mal = (1600, 25, 600) if tier != 'thorough' else (40000, 400, 30000)
+        n_plain, n_quirk, n_mal = (1600, 25, 600) if tier != 'thorough' else (36000, 400, 26000)
         if os.environ.get('VERIF_EBLIF_COUNTS'):        # experiments only: plain,quirk,malformed
             n_plain, n_quirk, n_mal = [int(x) for x in os.environ['VERIF_EBLIF_COUNTS'].split(',')]
         batch = []
@@ -436,6 +496,8 @@ def run(prop, tier, seed, replay):
             for (source, text), mr in zip(chunk, res):
                 oc = run_text(text, tmp, mr)
                 # no expectation: only correspondence and well-formedness of whatever is returned
+                # (the round-trip failures stay visible to the predicate tie: roundtrippable speaks about any netlist)
+                oc.all_failures = oc.failures
                 oc.failures = [f for f in oc.failures if f[0] == 'wf']
                 account('malformed', oc, text)
                 st['hist']['malformed'] += 1
@@ -465,11 +527,16 @@ def run(prop, tier, seed, replay):
         'model_impl_disagreements': st['disagreements'],
         'oracle_failures': st['oracle_failures'],
         'known_finding_hits': dict(st['known_hits']),
+        'predicate_histogram': dict(sorted(st['pred'].items())),
         'skipped_examples': skipped,
         'exhaustive': False,
         'compared': 'parsed netlist (instances with name/definition/type/data/pin order, ports with direction and width, '
                     'cables with wires as sorted pin sets, orphaned cables, libraries, top, comments), written file (token lines; '
-                    'sections after the first as a set), re-read netlist',
+                    'sections after the first as a set), re-read netlist; and the predicates of BlifSpec evaluated by the extracted '
+                    'model (supported d, roundtrippable n, the verified comparison equiv_b n (elab (emit n)), supported (emit n)) '
+                    'against the oracles on the implementation: a design-oracle failure of a kind covered by BlifSpec.denote on a '
+                    'supported document, or a round-trip failure (real composer + reader, or the model\'s own) on a roundtrippable '
+                    'netlist, is a VIOLATION that no known finding can excuse (predicate_histogram)',
     }
     common.write_evidence(PROP, tier, seed, coverage, wall, len(rep.violations), assumptions())
     print('%s %s: %d cases (%d compared with the model, %d outside its fragment), %d disagreements, %d oracle failures '
@@ -499,7 +566,8 @@ def trusted_base(proof):
     return [
         'Coq 8.16.1 kernel (coqc); vm_compute only inside Example / refutation witnesses; no native_compute',
         'Print Assumptions of every theorem in Props/C18.v: ' + ('Closed under the global context' if 'Axioms' not in proof['assumptions'] else 'see print_assumptions'),
-        'extraction: ExtrOcamlBasic only; nat/N/positive extracted as inductives; no Extract Constant',
+        'extraction: ExtrOcamlBasic only; nat/N/positive extracted as inductives; no Extract Constant; extracted: elab, emit, '
+        'supported, roundtrippable, equiv_b, rt_check (the predicates the theorems are stated with)',
         'ocaml/driver_eblif.ml (protocol parsing, JSON printing, sorting of pin sets)',
         'harness/eblif_world.py (tokenisation into lines of tokens - compared with the real tokenizer token by token on every case -, '
         'dump of the real objects; reads Instance._pins for the pin order), harness/eblif_gen.py (generator, independent writer, '
